@@ -192,6 +192,27 @@ def _src(B, o, depth):
         name = o[1] or ''
         t = B.blocks[o[2]]['t']
         if name.endswith('core::mem::take') or name.endswith('mem::take'):
+            # `mem::take(&mut xs[i])` with a built-in slice index (a spliced-in helper indexes its slice parameter this way)
+            a0 = t['args'][0]
+            if a0.get('k') in ('cp', 'mv') and not a0['pl'].get('p'):
+                d0 = B.single_def(a0['pl']['l']) or B.reaching_def(a0['pl']['l'], (o[2], None))
+                for _ in range(4):
+                    # reborrows `&mut *r`
+                    if d0 and d0[0] == 's' and d0[3]['rv']['k'] == 'ref' and (d0[3]['rv']['pl'].get('p') or []) == ['*']:
+                        l_ = d0[3]['rv']['pl']['l']
+                        d0 = B.single_def(l_) or B.reaching_def(l_, (d0[1], d0[2]))
+                    else:
+                        break
+                if d0 and d0[0] == 's' and d0[3]['rv']['k'] == 'ref':
+                    ps_ = d0[3]['rv']['pl'].get('p') or []
+                    ix = [e for e in ps_ if isinstance(e, dict) and ('idx' in e or 'cidx' in e)]
+                    if len(ix) == 1 and isinstance(ps_[-1], dict) and ps_[-1] is ix[0]:
+                        c = ix[0]['cidx'] if 'cidx' in ix[0] else fold(B.origin({'k': 'cp', 'pl': {'l': ix[0]['idx']}}, at=(d0[1], d0[2])))
+                        if c is not None and not ix[0].get('from_end'):
+                            base = B.origin_place({'l': d0[3]['rv']['pl']['l'], 'p': [e for e in ps_ if e is not ix[0]]}, at=(d0[1], d0[2]))
+                            while base[0] in ('call',) and base[1] and (base[1].endswith('deref_mut') or base[1].endswith('::deref') or base[1].endswith('as_mut_slice') or base[1].endswith('as_mut')):
+                                base = B.origin(B.blocks[base[2]]['t']['args'][0])
+                            return ('elem', c, _base_name(B, base))
             return _src(B, B.origin(t['args'][0]), depth + 1)
         if 'Index' in name and ('::index' in name):
             base = B.origin(t['args'][0])
